@@ -66,13 +66,13 @@ def cm_a(inputs, model_fidelity=None):
     mf = np.atleast_1d(np.asarray(model_fidelity, dtype=float)) if model_fidelity is not None else np.zeros(0)
     fac = 1.0 + 0.15 * float(mf.sum())
     x0, x1 = float(np.atleast_1d(inputs['x0'])[0]), float(np.atleast_1d(inputs['x1'])[0])
-    return {'ya': np.exp(0.4 * x0) * fac + 0.3 * x1 ** 2, 'model_cost': 0.5 + 1.5 * float(mf.sum())}
+    return {'ya': np.exp(0.4 * x0) * fac + 0.3 * x1 ** 2, 'model_cost': 1e-3 * (0.5 + 1.5 * float(mf.sum()))}
 
 
 def cm_b(inputs):
     event('model', 'b')
     ya, x1 = float(np.atleast_1d(inputs['ya'])[0]), float(np.atleast_1d(inputs['x1'])[0])
-    return {'yb': np.sin(ya) + 0.5 * x1, 'model_cost': 2.0}
+    return {'yb': np.sin(ya) + 0.5 * x1, 'model_cost': 2e-3}
 
 
 def truth_a(alpha, x0, x1):
